@@ -84,11 +84,13 @@ def Op.target (s : State) : Op → Option Nat
   | _ => none
 
 /-- **Isolation (one step)**: an operation never changes the locale shown by a context other than the one it
-    is applied to — creating a root or a sub-context, scoping, reading, creating/calling closures change no
-    existing context at all; `set*` through a view of `c` changes only `c`.  Parent and child are different
-    contexts, so this covers them. -/
+    is applied to — creating a root or a sub-context (wired or not), scoping, reading, creating/calling closures,
+    writing a wire change no existing context at all; `set*` through a view of `c` changes only `c`; a tick changes
+    only the wired sub-contexts whose wire is due (`pending`).  Parent and child are different contexts, so this
+    covers them. -/
 theorem C16_isolation (s : State) (op : Op) (c' : Nat) (hc : c' < s.cells.length)
-    (hne : Op.target s op ≠ some c') : (step s op).1.cells[c']? = s.cells[c']? := by
+    (hne : Op.target s op ≠ some c') (hd : op = .tick → pending s.wires c' = none) :
+    (step s op).1.cells[c']? = s.cells[c']? := by
   have happ : ∀ x, (s.cells ++ [x])[c']? = s.cells[c']? := fun x => List.getElem?_append_left hc
   have hset : ∀ v l t, s.views[v]? ≠ some c' →
       (match s.write v l t with | some s' => (s', Obs.none) | none => (s, Obs.bad)).1.cells[c']? = s.cells[c']? := by
@@ -132,7 +134,12 @@ theorem C16_isolation (s : State) (op : Op) (c' : Nat) (hc : c' < s.cells.length
     by_cases h : o < s.owners.length
     · cases hl : s.lookup o <;> simp [step, h, hl]
     · simp [step, h]
-  | tick => simp [step]
+  | tick => simp [step, State.deliver, List.getElem?_mapIdx, hd rfl]
+  | subWired parent w =>
+    cases parent with
+    | none => simp [step, happ]
+    | some pv => cases hr : s.read pv <;> simp [step, hr, happ]
+  | wireSet i l => cases hi : s.wires[i]? <;> simp [step, hi]
 
 theorem cells_length_mono (s : State) (op : Op) : s.cells.length ≤ (step s op).1.cells.length := by
   cases op with
@@ -174,23 +181,32 @@ theorem cells_length_mono (s : State) (op : Op) : s.cells.length ≤ (step s op)
     by_cases h : o < s.owners.length
     · cases hl : s.lookup o <;> simp [step, h, hl]
     · simp [step, h]
-  | tick => simp [step]
+  | tick => simp [step, State.deliver]
+  | subWired parent w =>
+    cases parent with
+    | none => simp [step]
+    | some pv => cases hr : s.read pv <;> simp [step, hr]
+  | wireSet i l => cases hi : s.wires[i]? <;> simp [step, hi]
+
+/-- does a tick in state `s` deliver a wire into context `c`? -/
+def State.delivers (s : State) (c : Nat) : Bool := (pending s.wires c).isSome
 
 /-- does some operation of the sequence write to context `c`? (views created on the way are followed) -/
 def writes (s : State) : List Op → Nat → Bool
   | [], _ => false
-  | op :: ops, c => (Op.target s op == some c) || writes (step s op).1 ops c
+  | op :: ops, c => (Op.target s op == some c) || (op == .tick && s.delivers c) || writes (step s op).1 ops c
 
 /-- **Isolation (whole sequences)**: whatever is done — to any other context, to sub-contexts created from this
-    one, to its parent, through any scoped view — a context that is not itself the target of a `set*` keeps
-    showing the same locale. -/
+    one (wired or not), to its parent, through any scoped view, to any wire — a context that is not itself the target
+    of a `set*` or of the delivery of its own wire keeps showing the same locale. -/
 theorem C16_isolation_seq (s : State) (ops : List Op) (c' : Nat) (hc : c' < s.cells.length)
     (hw : writes s ops c' = false) : (run s ops).1.cells[c']? = s.cells[c']? := by
   induction ops generalizing s with
   | nil => rfl
   | cons op ops ih =>
-    simp only [writes, Bool.or_eq_false_iff, beq_eq_false_iff_ne, ne_eq] at hw
-    have h1 := C16_isolation s op c' hc hw.1
+    simp only [writes, Bool.or_eq_false_iff, beq_eq_false_iff_ne, ne_eq, Bool.and_eq_false_imp, beq_iff_eq,
+      State.delivers, Option.isSome_eq_false_iff, Option.isNone_iff_eq_none] at hw
+    have h1 := C16_isolation s op c' hc hw.1.1 hw.1.2
     have h2 := ih (step s op).1 (Nat.lt_of_lt_of_le hc (cells_length_mono s op)) hw.2
     simp only [run]
     rw [h2, h1]
@@ -267,7 +283,12 @@ theorem views_stable (s : State) (op : Op) (v : Nat) (hv : v < s.views.length) :
     by_cases h : o < s.owners.length
     · cases hl : s.lookup o <;> simp [step, h, hl, happ]
     · simp [step, h]
-  | tick => simp [step]
+  | tick => simp [step, State.deliver]
+  | subWired parent x =>
+    cases parent with
+    | none => simp [step, happ]
+    | some pv => cases hr : s.read pv <;> simp [step, hr, happ]
+  | wireSet i l => cases hi : s.wires[i]? <;> simp [step, hi]
 
 theorem views_stable_run (s : State) (ops : List Op) (v : Nat) (hv : v < s.views.length) :
     (run s ops).1.views[v]? = s.views[v]? := by
@@ -451,7 +472,13 @@ theorem owners_step (s : State) (op : Op) :
     by_cases h : o < s.owners.length
     · cases hl : s.lookup o <;> simp [step, h, hl]
     · simp [step, h]
-  | tick => simp [step]
+  | tick => simp [step, State.deliver]
+  | subWired parent w =>
+    refine Or.inl ?_
+    cases parent with
+    | none => simp [step]
+    | some pv => cases hr : s.read pv <;> simp [step, hr]
+  | wireSet i l => refine Or.inl ?_; cases hi : s.wires[i]? <;> simp [step, hi]
 
 theorem owners_length_mono (s : State) (op : Op) : s.owners.length ≤ (step s op).1.owners.length := by
   rcases owners_step s op with e | ⟨n, e, _⟩ <;> rw [e] <;> simp
